@@ -832,10 +832,15 @@ func (e *SpecEnv) callExpr(n *Node) *SVal {
 		// called(Name): a call to a function or method called Name has been executed earlier
 		// in this function (ghost state maintained by the generator for contracts with guards)
 		need(1)
+		cn := args[0].Name
 		if args[0].Op != "id" {
-			sfail("called(FunctionName)")
+			// Type.method
+			cn = args[0].String()
+			if strings.ContainsAny(cn, " ()[]") {
+				sfail("called(FunctionName) or called(Type.method)")
+			}
 		}
-		nm := "$called:" + args[0].Name
+		nm := "$called:" + cn
 		x.em.Assert(sNot(x.em.Const(nm+"@0", "Bool")))
 		return boolVal(x.heapGet(e.heap, nm, "Bool"))
 	case "nth":
